@@ -73,7 +73,7 @@ func kitCBCHMAC(name string, key []byte) (cipher.AEAD, error) {
 // innerEncrypt calls the package below crypto.EncryptSymmetric directly
 // (aeskw.Wrap, aescbcaead Seal) when the inputs can be expressed there; it is
 // used to attribute a condition to the innermost call site that shows it.
-func innerEncrypt(a *algInfo, k *cryptokeys.Key, p, n, ad []byte) (site string, o res, ok bool) {
+func (e *env) innerEncrypt(a *algInfo, k *cryptokeys.Key, p, n, ad []byte) (site string, o res, ok bool) {
 	if k.Kind != cryptokeys.Oct {
 		return "", o, false
 	}
@@ -105,7 +105,7 @@ func innerEncrypt(a *algInfo, k *cryptokeys.Key, p, n, ad []byte) (site string, 
 	return "", o, false
 }
 
-func innerDecrypt(a *algInfo, k *cryptokeys.Key, ct, n, tag, ad []byte) (site string, o res, ok bool) {
+func (e *env) innerDecrypt(a *algInfo, k *cryptokeys.Key, ct, n, tag, ad []byte) (site string, o res, ok bool) {
 	if k.Kind != cryptokeys.Oct {
 		return "", o, false
 	}
@@ -195,6 +195,20 @@ type cond struct{ name, msg string }
 // judge applies the oracle for a call with something wrong: an error, the
 // sentinel where one is defined, and no output.
 func judgeFaulty(present, demanded cryptoref.Fault, o res) []cond {
+	cs := judgeFaulty0(present, demanded, o)
+	for i := range cs {
+		// an entry point that does not know a listed algorithm at all answers
+		// ErrUnsupportedAlgorithm whatever else is wrong: that is the one
+		// defect "listed but unsupported", not a sentinel mix-up per fault
+		if present&cryptoref.FaultAlg == 0 && errName(o.err) == "ErrUnsupportedAlgorithm" && len(cs[i].name) > 14 && cs[i].name[:14] == "wrong-sentinel" {
+			cs[i].name = "listed-but-unsupported"
+			cs[i].msg = "the package lists the algorithm as supported, the call returns ErrUnsupportedAlgorithm (inputs: wrong " + present.String() + ")"
+		}
+	}
+	return cs
+}
+
+func judgeFaulty0(present, demanded cryptoref.Fault, o res) []cond {
 	if o.pan != nil {
 		return []cond{{"panic", fmt.Sprintf("wrong %s: panic %v", present, o.pan)}}
 	}
@@ -280,8 +294,8 @@ func judgeEncrypt(entry string, a *algInfo, k *cryptokeys.Key, p, n, ad []byte, 
 	return cs
 }
 
-func evalSymEnc(c Case) []finding {
-	a, k := algByName[c.Alg], keyByID[c.Key]
+func (e *env) evalSymEnc(c Case) []finding {
+	a, k := algByName[c.Alg], e.keyByID[c.Key]
 	p, n, ad := pt(c.PT), nonce(c.Nonce), aads[c.AAD]
 	var s sink
 	var chain []siteConds
@@ -302,7 +316,7 @@ func evalSymEnc(c Case) []finding {
 	if len(cES)+len(cE) == 0 {
 		return nil
 	}
-	if site, oI, ok := innerEncrypt(a, k, p, n, ad); ok {
+	if site, oI, ok := e.innerEncrypt(a, k, p, n, ad); ok {
 		// at the inner site only the plaintext length can be wrong
 		pI := pES & cryptoref.FaultPlaintextLen
 		if pES == pI {
@@ -323,11 +337,11 @@ func evalSymEnc(c Case) []finding {
 // fault-free case must open to that plaintext); the tag is cut / extended to
 // c.Tag bytes. ok=false when there is nothing to decrypt for this case (e.g. a
 // key-wrap plaintext length RFC 3394 does not allow).
-func decInput(a *algInfo, c Case) (ct, tag, want []byte, rightKey *cryptokeys.Key, ok bool) {
+func (e *env) decInput(a *algInfo, c Case) (ct, tag, want []byte, rightKey *cryptokeys.Key, ok bool) {
 	if !(a.Known && a.Ref.Symmetric()) || c.Raw {
 		return resize(nil, c.PT), resize(nil, c.Tag), nil, nil, true
 	}
-	rightKey = octBySize[a.Ref.KeyLen]
+	rightKey = e.octBySize[a.Ref.KeyLen]
 	want = pt(c.PT)
 	rn := nonce(a.Ref.NonceLen)
 	rct, rtag, err := cryptoref.Encrypt(a.Ref, rightKey.Octets, rn, want, aads[c.AAD])
@@ -357,16 +371,16 @@ func judgeDecrypt(a *algInfo, o res, present cryptoref.Fault, want []byte) []con
 	return nil
 }
 
-func evalSymDec(c Case) []finding {
-	a, k := algByName[c.Alg], keyByID[c.Key]
-	ct, tag, want, rightKey, ok := decInput(a, c)
+func (e *env) evalSymDec(c Case) []finding {
+	a, k := algByName[c.Alg], e.keyByID[c.Key]
+	ct, tag, want, rightKey, ok := e.decInput(a, c)
 	if !ok {
 		return nil
 	}
-	return evalSymDecWith(c, a, k, ct, tag, want, rightKey)
+	return e.evalSymDecWith(c, a, k, ct, tag, want, rightKey)
 }
 
-func evalSymDecWith(c Case, a *algInfo, k *cryptokeys.Key, ct, tag, want []byte, rightKey *cryptokeys.Key) []finding {
+func (e *env) evalSymDecWith(c Case, a *algInfo, k *cryptokeys.Key, ct, tag, want []byte, rightKey *cryptokeys.Key) []finding {
 	// the nonce of the case: the right nonce cut / extended to c.Nonce bytes
 	n := nonce(c.Nonce)
 	ad := aads[c.AAD]
@@ -387,7 +401,7 @@ func evalSymDecWith(c Case, a *algInfo, k *cryptokeys.Key, ct, tag, want []byte,
 	}
 	var chain []siteConds
 	if pDS == 0 {
-		if site, oI, ok := innerDecrypt(a, k, ct, n, tag, ad); ok {
+		if site, oI, ok := e.innerDecrypt(a, k, ct, n, tag, ad); ok {
 			chain = append(chain, siteConds{site, judgeDecrypt(a, oI, 0, want)})
 		}
 	}
@@ -445,9 +459,9 @@ func judgeMutated(o res, want []byte) []cond {
 	return nil
 }
 
-func evalSymMut(c Case) []finding {
+func (e *env) evalSymMut(c Case) []finding {
 	a := algByName[c.Alg]
-	k := octBySize[a.Ref.KeyLen]
+	k := e.octBySize[a.Ref.KeyLen]
 	want := pt(c.PT)
 	n := nonce(a.Ref.NonceLen)
 	ad := aads[c.AAD]
@@ -480,7 +494,7 @@ func evalSymMut(c Case) []finding {
 		return nil
 	}
 	var chain []siteConds
-	if site, oI, ok := innerDecrypt(a, k, ct, n, tag, ad); ok {
+	if site, oI, ok := e.innerDecrypt(a, k, ct, n, tag, ad); ok {
 		chain = append(chain, siteConds{site, name(judgeMutated(oI, want))})
 	}
 	chain = append(chain, siteConds{"DecryptSymmetric", cDS}, siteConds{"Decrypt", cD})
